@@ -15,7 +15,7 @@ OUTSIDE = ["operations that make a dependency path start or stop resolving (atta
            "covers paths resolving both before and after, so no call count is asserted there", "paths deeper than 2",
            "more than 3 + 2 pool objects"]
 ASSUMPTIONS = ["leaf values symbolic unbounded ints"]
-VARIANTS = [('a.x',), ('a.x', 'a.y'), ('a.x', 'a.b.x'), ('a.param',), ('a.x', 'c.y')]
+VARIANTS = [('a.x',), ('a.x', 'a.y'), ('a.x', 'a.b.x'), ('a.param',), ('a.x', 'c.y'), ('a.b', 'a.b.x')]
 N_OPS = 7
 
 
@@ -25,7 +25,7 @@ class Node(param.Parameterized):
     b = param.ClassSelector(class_=param.Parameterized, default=None)
 
 
-def _mk_top(deps):
+def _mk_top(deps, sub=False):
     class Top(param.Parameterized):
         a = param.ClassSelector(class_=Node, default=None)
         c = param.ClassSelector(class_=Node, default=None)
@@ -37,18 +37,20 @@ def _mk_top(deps):
         @param.depends(*deps, watch=True)
         def m(self):
             self.calls += 1
-    return Top
+    class Top2(Top):       # the dependent method is inherited, not declared, by the instantiated class
+        pass
+    return Top2 if sub else Top
 
 
 def _nwatchers(o):
     return sum(len(l) for d in o.param.watchers.values() for l in d.values())
 
 
-def prog(variant: int, k: int, nm: int, o1: int, i1: int, v1: int, o2: int, i2: int, v2: int, o3: int, i3: int, v3: int,
+def prog(variant: int, k: int, nm: int, inh: bool, o1: int, i1: int, v1: int, o2: int, i2: int, v2: int, o3: int, i3: int, v3: int,
          o4: int, i4: int, v4: int) -> None:
     deps = VARIANTS[variant]
     with untraced():
-        Top = _mk_top(deps)
+        Top = _mk_top(deps, inh)
         # explicit, identical names: with 'a.param' the auto-generated names would make every replacement a change
         mids = [Node(name='cfg'), Node(name='cfg'), Node(name='cfg')]
         leaves = [Node(name='leaf'), Node(name='leaf')]
@@ -71,6 +73,8 @@ def prog(variant: int, k: int, nm: int, o1: int, i1: int, v1: int, o2: int, i2: 
                 out.append((True, mv[cur][0]))
             elif d == 'a.y':
                 out.append((True, mv[cur][1]))
+            elif d == 'a.b':
+                out.append((True, ('obj', sub[cur])))
             elif d == 'a.b.x':
                 out.append((True, lv[sub[cur]][0]) if sub[cur] is not None else (False, None))
             else:   # a.param: every parameter of the attached object
@@ -127,7 +131,9 @@ def prog(variant: int, k: int, nm: int, o1: int, i1: int, v1: int, o2: int, i2: 
                 for b, a in zip(before, after):
                     if b[0] and (True if b[1] != a[1] else False):
                         changed = True
-                objvalued = deps == ('a.param',) and any(b[0] and b[1][3] is not None for b in list(before) + list(after))
+                objvalued = ((deps == ('a.param',) and any(b[0] and b[1][3] is not None for b in list(before) + list(after)))
+                             or ('a.b' in deps and any(b[0] and isinstance(b[1], tuple) and b[1][0] == 'obj' and b[1][1] is not None
+                                                       for b in list(before) + list(after))))
                 if changed or not objvalued:
                     # (equality of Parameterized-valued parameters reached through 'a.param' is not fixed by the statement:
                     #  a spurious call for an unchanged sub-object value is not asserted against)
@@ -139,7 +145,7 @@ def prog(variant: int, k: int, nm: int, o1: int, i1: int, v1: int, o2: int, i2: 
             if idx != attached_mid and not ('c.y' in deps and idx == curc):
                 check('C07.no_stale_watchers', _nwatchers(mobj) == 0, dict(info, obj='mid%d' % idx, n=_nwatchers(mobj)))
         for idx, lobj in enumerate(leaves):
-            if idx != attached_leaf or 'a.b.x' not in deps:
+            if idx != attached_leaf or ('a.b.x' not in deps and 'a.b' not in deps):
                 if not (deps == ('a.param',)):
                     check('C07.no_stale_watchers', _nwatchers(lobj) == 0, dict(info, obj='leaf%d' % idx, n=_nwatchers(lobj)))
 
@@ -162,10 +168,10 @@ def shards(tier):
     for variant in range(len(VARIANTS)):
         nops = N_OPS if variant == 4 else N_OPS - 1
         for o1 in range(nops):
-            if q and variant in (0, 1) and o1 in (4, 5):
+            if q and variant in (0, 1, 4) and o1 in (4, 5):
                 continue       # quick: depth-2 operations first only for the variants that have a depth-2 dependency
             for o2 in range(nops):
-                c = dict(variant=variant, k=k, o1=o1, o2=o2, nm=2 if q else 3)
+                c = dict(variant=variant, k=k, o1=o1, o2=o2, nm=2 if q else 3, inh=(variant in (2, 5)))
                 if k < 4:
                     c.update(o4=0, i4=0, v4=0)
                 out.append(dict(name='v%d_o%d%d' % (variant, o1, o2), module='harness.c07', fn='prog', consts=c,
